@@ -7,7 +7,7 @@ import z3
 
 import ibldsp.utils as U
 from pyvc.api import harness, bounded, property_meta, run_function
-from pyvc.core import SV, term, wrap
+from pyvc.core import SV, term, fresh_name, wrap
 from pyvc import interp as I, arrays as A
 from pyvc.interp import SObj, LoopSpec, SIter, GenState
 
@@ -45,19 +45,37 @@ def firstlast_post(ns, nswin, overlap, Yf, Yl, k):
     ]
 
 
-def firstlast_inv(V):
+def _firstlast_inv(V, with_iw):
+    """speaks about the abstraction (the windows yielded so far, the window counter); the running start index is mentioned only when the
+    code keeps one in a local called `first` (a rewrite that derives it otherwise is still covered by the facts about Y and iw)"""
     S = V.self
     Yf, Yl, k = V.Y[0], V.Y[1], V.k
     stride = S.nswin - S.overlap
     j = z3.Int("j!inv")
-    return [k >= 0, V.first >= 0, S.iw == k, V.first == k * stride,
-            z3.Implies(k > 0, z3.And(V.first == Yf(k - 1) + stride, Yl(k - 1) < S.ns, Yf(0) == 0)),
-            z3.ForAll([j], z3.Implies(z3.And(j >= 0, j < k),
-                                      z3.And(Yl(j) == Yf(j) + S.nswin, Yl(j) < S.ns, Yf(j) == j * stride,
-                                             z3.Implies(j > 0, Yf(j) == Yf(j - 1) + stride))))]
+    out = [k >= 0,
+           z3.Implies(k > 0, z3.And(Yl(k - 1) < S.ns, Yf(0) == 0)),
+           z3.ForAll([j], z3.Implies(z3.And(j >= 0, j < k),
+                                     z3.And(Yl(j) == Yf(j) + S.nswin, Yl(j) < S.ns, Yf(j) == j * stride,
+                                            z3.Implies(j > 0, Yf(j) == Yf(j - 1) + stride))))]
+    if with_iw:
+        out.append(S.iw == k)
+    if V.has("first"):
+        out += [V.first >= 0, V.first == k * stride, z3.Implies(k > 0, V.first == Yf(k - 1) + stride)]
+    return out
 
 
-LOOPS = {("WindowGenerator.firstlast", 0): LoopSpec(invariant=firstlast_inv, decreases=lambda V: V.self.ns - V.first)}
+def firstlast_inv(V):
+    return _firstlast_inv(V, True)
+
+
+def _firstlast_variant(V):
+    return V.self.ns - (V.first if V.has("first") else V.k * (V.self.nswin - V.self.overlap))
+
+
+LOOPS = {("WindowGenerator.firstlast", 0): LoopSpec(invariant=firstlast_inv, decreases=_firstlast_variant)}
+# another iteration over the same object may run between two yields (tscale() inside a `for first, last in wg.firstlast` loop,
+# zip(wg.firstlast, wg.firstlast_valid), two iterators advanced alternately): the window counter is then not ours
+LOOPS_INTERLEAVED = {("WindowGenerator.firstlast", 0): LoopSpec(invariant=lambda V: _firstlast_inv(V, False), decreases=_firstlast_variant)}
 
 
 def sym_wg(it, with_nwin=False):
@@ -144,6 +162,62 @@ def h_firstlast(H):
         it.ctx.oblige("iw.final", term(obj.iw) == k - 1)
         it.ctx.oblige("init.nwin_eq_count", term(obj.nwin) == k, "post", "announced window count equals the number of windows produced")
     H.cover("pre", pre(*z3.Ints("ns nswin overlap")))
+    S.explore(body)
+
+
+def replay_interleaved(vals, oid):
+    """two iterations alive on the same WindowGenerator: the windows of each must still be the windows of (ns, nswin, overlap)"""
+    bad = []
+    cases = [(int(vals.get("ns", 0) or 0), int(vals.get("nswin", 0) or 0), int(vals.get("overlap", 0) or 0))] if vals else []
+    cases = [c for c in cases if 1 <= c[1] and 0 <= c[2] < c[1] and 1 <= c[0] <= 10 ** 6 and c[0] / max(1, c[1] - c[2]) < 5000]
+    for ns, nswin, overlap in cases + [(500, 100, 10), (137, 32, 6), (400, 64, 0), (1000, 250, 125), (64, 64, 3), (65, 64, 63)]:
+        want = list(WG(ns, nswin, overlap).firstlast)
+        wg = WG(ns, nswin, overlap)
+        # (a) tscale() evaluated inside the loop
+        got, n = [], 0
+        for fl in wg.firstlast:
+            got.append(fl)
+            wg.tscale(1.0)
+            n += 1
+            if n > len(want) + 5:
+                break
+        if got != want:
+            bad.append({"inputs": [ns, nswin, overlap], "scenario": "tscale() inside the loop over firstlast", "got": got[:5], "want": want[:5]})
+        # (b) two iterators advanced alternately
+        wg = WG(ns, nswin, overlap)
+        a, b = iter(wg.firstlast), iter(wg.firstlast)
+        ga, gb = [], []
+        for _ in range(len(want) + 5):
+            for g_, it_ in ((ga, a), (gb, b)):
+                try:
+                    g_.append(next(it_))
+                except StopIteration:
+                    pass
+        if ga != want or gb != want:
+            bad.append({"inputs": [ns, nswin, overlap], "scenario": "two firstlast iterators advanced alternately", "got": ga[:5], "want": want[:5]})
+    return {"failed": bool(bad), "examples": bad[:3]}
+
+
+@harness(PROPERTY, "firstlast_interleaved", functions=["ibldsp.utils:WindowGenerator.firstlast"], replay=replay_interleaved,
+         clause="the windows depend on (ns, nswin, overlap) only: another iteration over the same object between two yields does not disturb them")
+def h_interleaved(H):
+    def havoc_counter(interp, gen, vals, env):
+        obj = env.lookup("self")
+        obj.attrs["iw"] = SV(z3.Int(fresh_name("iw_set_by_another_iteration")))
+    S = H.session(loops=LOOPS_INTERLEAVED, gen_hooks={"WindowGenerator.firstlast": havoc_counter})
+
+    def body(it):
+        ns, nswin, overlap = z3.Ints("ns nswin overlap")
+        H.input(ns=ns, nswin=nswin, overlap=overlap)
+        for c in pre(ns, nswin, overlap):
+            it.ctx.assume(c)
+        obj = SObj(WG, ns=SV(ns), nswin=SV(nswin), overlap=SV(overlap), iw=None)
+        gen = GenState("Y")
+        gen.ensure([SV(ns), SV(ns)])
+        run_function(it, FIRSTLAST, [obj], gen=gen)
+        Yf, Yl, k = gen[0], gen[1], gen.k
+        for cid, f in firstlast_post(ns, nswin, overlap, Yf, Yl, k):
+            it.ctx.oblige(f"interleaved.post.{cid}", f)
     S.explore(body)
 
 
